@@ -13,8 +13,12 @@ import time
 import traceback
 
 VERIF = os.path.dirname(os.path.dirname(os.path.abspath(__file__)))
-EVIDENCE_DIR = os.path.join(VERIF, "evidence")
-REPLAY_DIR = os.path.join(VERIF, "replays")
+# Runs against a scratch copy of the repository (sensitivity mutants, VERIF_REPO=<copy>) must never overwrite the
+# evidence of the real tree: their evidence and replay files go to a scratch directory instead.
+_FOREIGN = os.path.realpath(os.environ.get("VERIF_REPO", "/repo")) != os.path.realpath("/repo")
+_OUT = os.environ.get("VERIF_OUT") or (os.path.join("/tmp/scratch", "dst-out-" + os.path.basename(os.path.realpath(os.environ["VERIF_REPO"]))) if _FOREIGN else VERIF)
+EVIDENCE_DIR = os.path.join(_OUT, "evidence")
+REPLAY_DIR = os.path.join(_OUT, "replays")
 KNOWN_FINDINGS = os.path.join(VERIF, "known_findings.json")
 TOLERANCES = os.path.join(VERIF, "dst", "tolerances.json")
 
